@@ -288,25 +288,26 @@ func (s *v4Server) rmLeaseByIndex(i int) {
 //
 // TODO(s.chzhen):  Refactor the code.
 func (s *v4Server) rmDynamicLease(lease *dhcpsvc.Lease) (err error) {
-	for i, l := range s.leases {
-		isStatic := l.IsStatic
+	for i := 0; i < len(s.leases); {
+		l := s.leases[i]
 
 		if bytes.Equal(l.HWAddr, lease.HWAddr) || l.IP == lease.IP {
-			if isStatic {
+			if l.IsStatic {
 				return errors.Error("static lease already exists")
 			}
 
+			// Don't advance the index, since the next lease, if any, has been
+			// moved to the current position and must be examined as well.
 			s.rmLeaseByIndex(i)
-			if i == len(s.leases) {
-				break
-			}
 
-			l = s.leases[i]
+			continue
 		}
 
-		if !isStatic && l.Hostname == lease.Hostname {
+		if !l.IsStatic && l.Hostname == lease.Hostname {
 			l.Hostname = ""
 		}
+
+		i++
 	}
 
 	return nil
